@@ -75,6 +75,12 @@ func Canon(r drv.Resp) string {
 			return fmt.Sprintf("%d|%s", r.Status, s)
 		}
 	}
+	if i := strings.Index(string(body), "found multiple kv for key"); i >= 0 {
+		// a streamed read (keyrangevalues, all-elements, ...) that met an unresolved merge conflict after the 200 header
+		// was sent: what was streamed before the error counts, the error text (it names whichever of the conflicting
+		// stored versions the scan met first) is compared like any other error body - not at all
+		return fmt.Sprintf("%d|partial:%s|conflict-error", r.Status, hashBytes(body[:i]))
+	}
 	if r.Status >= 400 {
 		// error text may embed request ids / timings: keep the status only
 		return fmt.Sprintf("%d|error", r.Status)
@@ -379,7 +385,7 @@ func (wd *World) SnapshotH(versions []string, hints *Hints) (*Snap, error) {
 			}
 		}
 		if on("nj") {
-			for _, ep := range []string{"nj/all", "nj/keys", "nj/fields", "nj/all?show=all"} {
+			for _, ep := range []string{"nj/all", "nj/keys", "nj/fields", "nj/all?show=all", "nj/json_schema", "nj/schema", "nj/schema_batch", "nj/key/schema"} {
 				if err := wd.get(s, n+ep); err != nil {
 					return nil, err
 				}
